@@ -853,3 +853,61 @@ def rule_termination_event_signalled(ctx, rule='C11.k'):
                     'the ConnectionTerminated branch does not queue the end-of-connection marker on every path: a close '
                     'that takes the other path leaves the receiver waiting, the close sequence never runs')
     rep.require(rule, 'ConnectionTerminated branches in the transports', n, 1)
+
+
+# ------------------------------------------------------------------ what enters the incoming queue of a transport
+def rule_queue_items_come_from_the_parser(ctx, rule='C04.m'):
+    """What a message transport queues for the receive loop is what the frame parser yielded for the message, or the
+    end-of-connection marker.  FrameParser.receive_data is where a message becomes 'exactly the frame it contains':
+    it drops the frames that are to be ignored (parse_or_ignore returns None for them), turns decoder failures into
+    the invalid-frame marker and an empty message into nothing.  A feeder that decodes by itself and queues the
+    result hands the receive loop a None for every ignorable frame - which kills the receiver task.  Every put /
+    put_nowait on an `_incoming_frame_queue` passes (a) the variable of a loop over `<parser>.receive_data(...)`,
+    (b) a freshly constructed exception, or (c) a value the statement is guarded for by isinstance(<it>, Exception)."""
+    rep = ctx.report
+    repo = ctx.repo
+    exc_names = _exception_classes(repo) | {'Exception', 'RSocketTransportError'}
+    n = 0
+    bad = []
+    for fn in repo.all_functions():
+        if not fn.module.name.startswith('rsocket.transports'):
+            continue
+        parents = {}
+        for x in ast.walk(fn.node):
+            for c in ast.iter_child_nodes(x):
+                parents[c] = x
+        for c in walk_local(fn.node):
+            if not (isinstance(c, ast.Call) and isinstance(c.func, ast.Attribute) and
+                    c.func.attr in ('put_nowait', 'put') and _is_incoming_queue(c.func.value) and c.args):
+                continue
+            n += 1
+            a = c.args[0]
+            ok = False
+            if isinstance(a, ast.Call):
+                name = a.func.id if isinstance(a.func, ast.Name) else getattr(a.func, 'attr', '')
+                ok = name in exc_names
+            elif isinstance(a, ast.Name):
+                x = c
+                while x in parents and not ok:
+                    p = parents[x]
+                    if isinstance(p, (ast.AsyncFor, ast.For)) and x in p.body and isinstance(p.target, ast.Name) and \
+                            p.target.id == a.id and isinstance(p.iter, ast.Call) and \
+                            isinstance(p.iter.func, ast.Attribute) and p.iter.func.attr == 'receive_data':
+                        ok = True
+                    if isinstance(p, ast.If) and x in p.body and isinstance(p.test, ast.Call) and \
+                            isinstance(p.test.func, ast.Name) and p.test.func.id == 'isinstance' and \
+                            len(p.test.args) == 2 and isinstance(p.test.args[0], ast.Name) and \
+                            p.test.args[0].id == a.id and 'Exception' in ast.unparse(p.test.args[1]):
+                        ok = True
+                    x = p
+            if not ok:
+                bad.append((fn, c))
+    for fn, c in bad:
+        rep.bad(rule, '%s / queues %s' % (fn.short, ast.unparse(c.args[0])), fn,
+                'line %d: what is queued for the receive loop is neither an item of FrameParser.receive_data() nor an '
+                'exception marker: a frame that must be ignored arrives there as None and ends the receiver task'
+                % c.lineno)
+    rep.require(rule, 'items put into incoming frame queues', n, 20)
+    if not bad:
+        rep.ok(rule, 'message transports / what is queued comes from the frame parser',
+               repo.cls('rsocket.transports.abstract_messaging:AbstractMessagingTransport'), '%d put sites' % n)
